@@ -404,12 +404,21 @@ Section DBIterErr.
   Inductive deres := DEOk (s : destate) (r : bool) | DEFuel | DEPanic.
 
   (* after the guards: the error-free method (strict parse errors included: setErr(kerr), a corruption
-     error); every path that returns false afterwards has either just set the error or calls iterErr();
-     a path that returns TRUE never looks at the raw iterator's error - prev() included, see
-     IterErrProofs.dbiter_prev_error_yields_stale *)
+     error); every path that returns false afterwards has either just set the error or calls iterErr().
+     A path that returns TRUE has the raw iterator on the entry it just parsed (next(), and the in-loop
+     return of prev()) - except the exit of prev() below its loop, taken when i.iter.Prev() returned false
+     (or the raw iterator was not valid to begin with): there the repaired code (35e2053) consults
+     i.iter.Error() BEFORE deciding, `if err := i.iter.Error(); err != nil { i.setErr(err); return false }`.
+     So: a true return with the raw iterator not on an entry is that exit, and it turns into setErr / false
+     when the raw iterator carries an error. *)
   Definition de_post (s : destate) (r : res C) : deres :=
     match r with
-    | Ok b true => DEOk (mkDE b (de_err s) false (de_releaser s)) true
+    | Ok b true =>
+        if is_some (chobs (d_child b)) then DEOk (mkDE b (de_err s) false (de_releaser s)) true
+        else match cherr (d_child b) with
+             | Some e => DEOk (mkDE (set_err C b) (Some e) false (de_releaser s)) false       (* prev(): setErr(err) *)
+             | None => DEOk (mkDE b (de_err s) false (de_releaser s)) true
+             end
     | Ok b false =>
         if d_err b then DEOk (mkDE b (Some ECorrupt) false (de_releaser s)) false
         else match cherr (d_child b) with
@@ -420,7 +429,16 @@ Section DBIterErr.
     | Panic => DEPanic
     end.
 
-  Definition de_move (fuel : nat) (s : destate) (m : move bytes) : deres :=
+  (* THE CODE BEFORE 35e2053, kept only as the witness of the repaired defect (IterErrProofs /
+     Props/C02.v C02_dbiter_prev_error_yields_stale_refuted): prev() returned true below its loop without
+     looking at the raw iterator's error *)
+  Definition de_post_old (s : destate) (r : res C) : deres :=
+    match r with
+    | Ok b true => DEOk (mkDE b (de_err s) false (de_releaser s)) true
+    | _ => de_post s r
+    end.
+
+  Definition de_move_with (post : destate -> res C -> deres) (fuel : nat) (s : destate) (m : move bytes) : deres :=
     match de_err s with
     | Some _ => DEOk s false
     | None =>
@@ -429,9 +447,11 @@ Section DBIterErr.
           match m, d_dir (de_base s) with
           | MNext, DirEOI => DEOk s false
           | MPrev, DirSOI => DEOk s false
-          | _, _ => de_post s (db_step c p C chstep chobs seq strict fuel (de_base s) m)
+          | _, _ => post s (db_step c p C chstep chobs seq strict fuel (de_base s) m)
           end
     end.
+  Definition de_move := de_move_with de_post.
+  Definition de_move_old := de_move_with de_post_old.
 
   Definition de_dead (s : destate) : bool := is_some (de_err s) || de_released s.
   Definition de_kv (s : destate) : option (bytes * bytes) := if de_dead s then None else db_kv (de_base s).
@@ -445,22 +465,25 @@ Section DBIterErr.
 
   Definition de_out (s : destate) (ret : bool) : eout bytes bytes := mkEO ret (de_kv s) (de_valid s) (de_err s).
 
-  Fixpoint de_run (fuel : nat) (s : destate) (cs : list (ecall bytes)) : option (list (eout bytes bytes)) :=
+  Fixpoint de_run_with (post : destate -> res C -> deres) (fuel : nat) (s : destate) (cs : list (ecall bytes))
+    : option (list (eout bytes bytes)) :=
     match cs with
     | [] => Some []
     | cl :: r =>
         let step := match cl with
-                    | CMove m => match de_move fuel s m with DEOk s' ret => Some (s', ret) | _ => None end
+                    | CMove m => match de_move_with post fuel s m with DEOk s' ret => Some (s', ret) | _ => None end
                     | CRelease => Some (de_release s, false)
                     | CSetReleaser n => option_map (fun s' => (s', false)) (de_set_releaser s n)
                     end in
         match step with
-        | Some (s', ret) => match de_run fuel s' r with Some o => Some (de_out s' ret :: o) | None => None end
+        | Some (s', ret) => match de_run_with post fuel s' r with Some o => Some (de_out s' ret :: o) | None => None end
         | None => None
         end
     end.
+  Definition de_run := de_run_with de_post.
+  Definition de_run_old := de_run_with de_post_old.
 End DBIterErr.
 Arguments de_base {C}. Arguments de_err {C}. Arguments de_released {C}. Arguments de_releaser {C}.
 Arguments mkDE {C}. Arguments de_init {C}.
 Arguments de_kv {C}. Arguments de_valid {C}. Arguments de_dead {C}. Arguments de_release {C}. Arguments de_set_releaser {C}.
-Arguments de_out {C}. Arguments de_post {C}. Arguments DEOk {C}. Arguments DEFuel {C}. Arguments DEPanic {C}.
+Arguments de_out {C}. Arguments de_post {C}. Arguments de_post_old {C}. Arguments DEOk {C}. Arguments DEFuel {C}. Arguments DEPanic {C}.
